@@ -50,6 +50,10 @@ T = {
  'C12': dict(design='4/C12', technique='property-based differential testing of transient simulation against the exact first-order-hold response of an independently derived exact state-space model + algebraic circuit-law residuals',
              text='Generated circuits x piecewise-linear source waveforms with grid break points x uniform grids resolving the fastest time constant; every potential, voltage and current series is compared sample by sample with the exact discrete response; start from rest, KCL, Ohm, v=phi1-phi2, C dv/dt and L di/dt as algebraic residuals against the reference ODE, power=v*i; constant inputs must settle to the DC solution and sinusoidal inputs to the phasor steady state.',
              note='Trusts scipy.linalg.expm for the Van Loan discretisation of the exact model (the library uses scipy.signal.lsim); cond(A_ref) <= 1e8; settling comparisons use 2e-3 / 5e-3 of the signal scale.'),
+
+ 'C03': dict(design='4/C03', technique='metamorphic property-based testing: bijective renaming, list permutation, element reversal and re-referencing of networks, phasor circuits, state-space models and transient runs',
+             text='A generated base case (network, phasor circuit, dynamic circuit) is solved before and after a generated transformation; potential differences, voltages, currents, powers, port impedances, per-source frequency responses and transient waveforms must agree up to the renaming and the sign of the reversed elements\' own voltage and current. Library vs itself, no reference needed; exact domain tests only decide which cases are judged.',
+             note='Relative tolerance 1e-7 (1e-5 for state-space quantities) of the natural scale of the base solution; labels come from adversarial pools whose sort order interleaves element kinds.'),
 }
 
 DEFAULT_LEVEL = 'exploration'
